@@ -107,6 +107,14 @@ class Ctx:
         self.pid, self.tier, self.seed = pid, tier, seed
         self.t0 = time.time()
         self.rng = random.Random(seed)
+        # every source of randomness of a run derives from the one seed: the harness's own generator, the global `random` module (dropout
+        # seeds drawn by the library) and torch's global generator (inputs, initialisations, sampling) - so that a failure replays exactly
+        random.seed(seed)
+        try:
+            import torch
+            torch.manual_seed(seed % (2 ** 31))
+        except Exception:
+            pass
         self.log = []
         self.obligation_failures = []   # list of dicts {what, detail}
         self.obligations = 0
